@@ -123,7 +123,7 @@ func rlweEvaluatorTarget() *Target {
 	addF := func(e *Env) func(a, b, c *rlwe.Ciphertext) error {
 		return func(a, b, c *rlwe.Ciphertext) error {
 			r := e.RLWE.RingQ().AtLevel(c.Level())
-			for i := range c.Value {
+			for i := 0; i < 2; i++ { // degree-1 operands by the method's contract
 				r.Add(a.Value[i], b.Value[i], c.Value[i])
 			}
 			return nil
